@@ -9,7 +9,8 @@ of the dispatch (`_handle_stream_stanza`), but a handler may disconnect in the m
 complete the negotiation.  This cannot happen because the stanza names for which a handler
 disconnects directly ("features", "failure") are not names for which a handler completes the
 negotiation ("enabled", "resumed", "failed", "handshake"), the `_handle_features` handler is only
-registered for the name "features", and the id handlers (bind/session/legacy), which complete the
+registered for the name "features", and the id handlers (bind/session/legacy; the application's
+own id handler only reports the stanza), which complete the
 negotiation whatever the name, all run BEFORE the other handlers and never disconnect directly.
 That needs three further invariants: `HL` (which functions sit in which handler list), `G` (the
 property itself) and the lifecycle invariant `J` of ConnC13Inv.lean (not disconnected ⇒ no
@@ -39,6 +40,7 @@ def okI (fn : HFun) : Bool :=
   | .sys .bind => true
   | .sys .session => true
   | .sys .legacy => true
+  | .userAll => true      -- the application's own id handler: only reports the stanza
   | _ => false
 
 def HL (c : Conn) : Prop :=
@@ -907,7 +909,7 @@ theorem HL_step (op : Op) (h : HL c) : HL (step c op) := by
   | urawstr it => exact HL_xmppSendRawString h
   | udisc => exact HL_xmppDisconnect h
   | release => exact HL_release h
-  | addUserHandlers => exact HL_addTimed (HL_addHandler h rfl)
+  | addUserHandlers => exact HL_addTimed (HL_addIdHandler (HL_addHandler h rfl) rfl)
 
 theorem G_step (op : Op) (hI : Inv c) (hH : HL c) (h : G c) : G (step c op) := by
   cases op with
@@ -932,7 +934,7 @@ theorem G_step (op : Op) (hI : Inv c) (hH : HL c) (h : G c) : G (step c op) := b
   | urawstr it => exact G_xmppSendRawString h
   | udisc => exact G_xmppDisconnect h
   | release => exact G_release h
-  | addUserHandlers => exact G_addTimed (G_addHandler h)
+  | addUserHandlers => exact G_addTimed (G_addIdHandler (G_addHandler h))
 
 theorem good_exec (ops : List Op) : ∀ {c}, Inv c → HL c → G c → G (exec c ops) := by
   induction ops with
